@@ -1,0 +1,13 @@
+//go:build verif
+
+// Contracts for the verification machinery in /verif (comment-only; compiled only with -tags verif).
+
+package jws
+
+//@ spec sigValid(compact string, key *jws.JWK) bool
+//
+//@ func VerifyJWS
+//@   trusted
+//@   results sig, err
+//@   requires jwk != nil
+//@   ensures (err == nil) == sigValid(jwsStr, jwk)
